@@ -343,7 +343,7 @@ struct Top final : ex::rcv_base {
   int custom() const noexcept override { return 9; }
 };
 
-struct Options { bool stop_events = true; bool faults = false; bool reactive = true; bool check_result = true; bool check_queries = true; bool known_lvss = false; };
+struct Options { bool stop_events = true; bool faults = false; bool reactive = true; bool check_result = true; bool check_queries = true; bool known_lvss = false; bool ctx_check = false; };
 
 std::string g_case;
 void fail(const char* props, const char* key, const std::string& msg) { vmcrt::fail(props, key, (msg + " | case: " + g_case + " | events: " + ex::g->trace).c_str()); }
@@ -362,6 +362,7 @@ void run_tree(Tree t, const Options& opt) {
   }
   ex::Ctx ctx; ex::g = &ctx;
   ctx.leaves.resize(nleaves);
+  ctx.defer_sched = opt.ctx_check;   // scheduler hops become events that run on the scheduler's context tag
   // leaves below a let_value_with_stop_source are not offered the Reactive mode here: a child that completes inside
   // its stop callback makes let_value_with_stop_source destroy its own stop source while that source is still
   // running request_stop() (recorded finding, demonstrated by the dedicated harness expr_known_lvss)
@@ -385,6 +386,7 @@ void run_tree(Tree t, const Options& opt) {
     Top top; top.src = src;
     bool stop_sent = false;
     auto compare = [&](const char* when) {
+      if (opt.ctx_check) return;   // scheduler hops are separate events there: the inline-hop reference does not apply
       // leaves: started set, pending set, stop observations
       for (int i = 0; i < nleaves; ++i) {
         auto& L = ctx.leaf(i); auto& M = model.leaves[i];
@@ -426,7 +428,7 @@ void run_tree(Tree t, const Options& opt) {
         int c = vmc::choose(n);
         if (c == (int)live.size()) {
           src->request_stop(); stop_sent = true; ctx.trace += "S ";
-          model.request_stop(model.outer);
+          if (!opt.ctx_check) model.request_stop(model.outer);
           compare("after stop");
           continue;
         }
@@ -434,10 +436,12 @@ void run_tree(Tree t, const Options& opt) {
         p.alive = false;
         int leaf_id = p.leaf;
         auto fire = std::move(p.fire);
-        fire();
+        { int save = ctx.cur_ctx; ctx.cur_ctx = p.sched_ctx >= 0 ? p.sched_ctx : 0; fire(); ctx.cur_ctx = save; }
+        if (leaf_id < 0) { compare("after scheduler hop"); continue; }
         // mirror in the model: find the leaf node and complete it
         MNode* ml = nullptr;
         for (auto& up : model.arena) if (up->t->kind == LEAF && up->t->leaf == leaf_id && up->running) ml = up.get();
+        if (opt.ctx_check) continue;
         if (!ml) fail("!", "harness", "model has no running leaf for the fired event");
         model.leaves[leaf_id].pending = false;
         model.complete(ml, model.leaf_res(leaf_id, ctx.leaf(leaf_id).outcome));
@@ -446,6 +450,18 @@ void run_tree(Tree t, const Options& opt) {
       // quiescent: every started leaf has completed, so the composite must have completed (no lost completion)
       if (top.count != 1) fail("C01", "lost-completion", "quiescent (all children completed) but the outer receiver was signalled " + std::to_string(top.count) + " times");
       // the receiver's stop source dies before the operation state: a late deregistration would be a use-after-free
+      if (opt.ctx_check) {
+        // via/typed_via deliver on the scheduler's context; on() starts its sender there
+        if (t.kind == VIA && top.ctx != 10 + t.id) fail("C11", "via-context", "via() completed on context " + std::to_string(top.ctx) + " instead of its scheduler's " + std::to_string(10 + t.id));
+        if (t.kind == ON) {
+          // the first leaf to be started is started from the hop of its nearest enclosing on()
+          std::vector<int> nearest_on(nleaves, -1);
+          std::function<void(const Tree&, int)> walk = [&](const Tree& x, int on_id) { if (x.kind == LEAF) nearest_on[x.leaf] = on_id; for (auto& k : x.kids) walk(k, x.kind == ON ? x.id : on_id); };
+          walk(t, -1);
+          for (int i = 0; i < nleaves; ++i) if (ctx.leaf(i).order_started == 0 && ctx.leaf(i).start_ctx != 10 + nearest_on[i])
+            fail("C11", "on-context", "on() started its sender on context " + std::to_string(ctx.leaf(i).start_ctx) + " instead of its scheduler's " + std::to_string(10 + nearest_on[i]));
+        }
+      }
       delete src; src = nullptr;
       op.reset();
     } catch (const kit::tagged_error& e) {
@@ -458,7 +474,7 @@ void run_tree(Tree t, const Options& opt) {
     for (int i = 0; i < nleaves; ++i) if (ctx.leaf(i).ops_alive != 0) fail("C02", "leaf-op-leak", "leaf L" + std::to_string(i) + " operation states leaked or destroyed twice: live=" + std::to_string(ctx.leaf(i).ops_alive));
     if (ctx.sched_ops_alive != 0) fail("C02", "sched-op-leak", "schedule() operation states leaked: " + std::to_string(ctx.sched_ops_alive));
     for (auto& kv : ctx.ledgers) if (kv.second.live != 0) fail("C02,C12", "alloc-leak", "allocator " + std::to_string(kv.first) + " has " + std::to_string(kv.second.live) + " live blocks after the operation was destroyed");
-    if (opt.check_queries && !connect_threw) {
+    if (opt.check_queries && !connect_threw && !opt.ctx_check) {
       if (ctx.sched_seen.size() != model.sched_exp.size()) fail("C12,C05", "sched-count", "number of schedule() operations started differs from the reference");
       for (size_t i = 0; i < ctx.sched_seen.size() && i < model.sched_exp.size(); ++i) {
         if (ctx.sched_seen[i].custom != model.sched_exp[i].custom) fail("C12", "sched-query-custom", "a schedule() operation sees custom query value " + std::to_string(ctx.sched_seen[i].custom) + ", expected " + std::to_string(model.sched_exp[i].custom));
@@ -507,4 +523,12 @@ VMC_SEQ_HARNESS(expr_known_lvss, "C02,C04") {
   Options o; o.known_lvss = true;
   Tree t = make_node(FIN, {make_node(LVSS, {leaf_tree()}), leaf_tree()});
   run_tree(t, o);
+}
+
+// C11: via(X, s) completes on s's context, on(s, X) starts X there; scheduler hops are separate events here
+VMC_SEQ_HARNESS(expr_ctx, "C11,C05,C01") {
+  int root = vmcrt::arg(0, VIA);
+  Options o; o.ctx_check = true; o.reactive = false;
+  std::vector<int> inner = all_kinds(); inner.insert(inner.begin(), LEAF);
+  run_tree(choose_tree({root}, inner, 2), o);
 }
